@@ -79,6 +79,16 @@ def cases(tier, seed):
         out.append({"name": "fault.shutdown-race/%s" % ">".join(layers), "kind": "sdrace", "layers": layers, "cap": cap})
     for comb in ("zip", "and", "or", "sequence"):
         out.append({"name": "fault.late-input/%s" % comb, "kind": "late", "comb": comb})
+    # no user fault at all: lost races between completion and cancel must not surface as library-internal exceptions
+    # (out of a Future method, into a worker thread, or into the delegate's callback dispatch)
+    for entry in ("f_zip", "f_and", "f_or", "f_sequence", "f_traverse", "f_apply", "f_map", "f_flat_map", "retry", "retrying", "poll", "throttle",
+                  "timeout", "map>retry"):
+        for ckind in ("value", "exc"):
+            out.append({"name": "internal.race/%s/%s" % (entry, ckind), "kind": "irace", "entry": entry, "ckind": ckind, "cap": None})
+    for op in ("cancel_queued_last", "cancel_queued_first", "submit", "complete"):
+        for op2 in ("submit", "cancel_queued_last", "cancel_queued_first", "complete"):
+            if op != op2 or op == "submit":
+                out.append({"name": "internal.queue/%s|%s" % (op, op2), "kind": "iqueue", "a": op, "b": op2, "cap": None})
     return out
 
 
@@ -705,7 +715,114 @@ def run_late(case, res):
                 end(ctx)
 
 
+def run_irace(case, res):
+    from . import c02
+    rng = random.Random("c18i/%s/%s" % (case["seed"], case["name"]))
+
+    class Scn(c02.PScenario):
+        def oracle(self, ctx, res_, info):
+            label = "%s %s|%s placement=%s" % (case["name"], self.a, self.b, info.get("site"))
+            for (inv, ret, r, was_done) in ctx.p.cancels:
+                if isinstance(r, BaseException):
+                    res_.violation("exception-escaped/cancel/%s" % type(r).__name__, "%s: cancel() raised %r" % (label, r))
+            for (name, e) in ctx.p.add_errors:
+                res_.violation("exception-escaped/add_done_callback/%s" % type(e).__name__, "%s: add_done_callback raised %r" % (label, e))
+            for a in (info.get("victim"), info.get("iact")):
+                if a is not None and a.error is not None and not isinstance(a.error, (instr.DeadlockBroken, instr.CaseAbort)):
+                    res_.violation("exception-escaped/%s/%s" % (a.role, type(a.error).__name__), "%s: %r" % (label, a.error),
+                                   tb=getattr(a, "tb", None))
+            if info.get("hit"):
+                res_.key("irace", case["entry"], case["ckind"], self.a, self.b, info.get("site"))
+            res_.count("internal_races_judged")
+
+    for a, b in (("complete", "cancel"), ("cancel", "complete"), ("complete", "add_cb"), ("cancel", "cancel")):
+        Sweep(Scn(case["entry"], case["ckind"], a, b), res, "vt", case["name"]).run(case["cap"], rng, per_site=2)
+        if harness.need_recycle():
+            return
+
+
+class QScenario(object):
+    """A throttle with one slot: a filler holds it, three futures are queued.  Queue operations from two threads
+    (cancel of a queued future that is not at the head, submit, completion freeing the slot)."""
+
+    def __init__(self, case):
+        self.case = case
+
+    def setup(self):
+        ME = instr.ME
+        ctx = Ctx()
+        tap()
+        n0 = len(instr.TRACKED)
+        ctx.me = ManualExecutor("me")
+        ctx.own(ctx.me)
+        ctx.ex = ctx.own(ME.Executors.with_throttle(ctx.me, 1))
+        ctx.threads = [t for t in instr.TRACKED[n0:]]
+        ctx.futs = [ctx.ex.submit(lambda: "filler")]
+        instr.advance(0.05)
+        for i in range(3):
+            ctx.futs.append(ctx.ex.submit(lambda i=i: i))
+        instr.advance(0.05)
+        ctx.errors = []
+        return ctx
+
+    def act(self, ctx, what):
+        try:
+            if what == "submit":
+                ctx.futs.append(ctx.ex.submit(lambda: "late"))
+            elif what == "cancel_queued_last":
+                ctx.futs[3].cancel()
+            elif what == "cancel_queued_first":
+                ctx.futs[1].cancel()
+            elif what == "complete":
+                p = ctx.me.pending()
+                if p:
+                    ctx.me.run(p[0])
+        except (instr.DeadlockBroken, instr.CaseAbort):
+            raise
+        except BaseException as e:
+            ctx.errors.append((what, e))
+
+    def victim_role(self, ctx):
+        return "V"
+
+    def start_victim(self, ctx):
+        return ctx.actor("V", self.act, ctx, self.case["a"]).go()
+
+    def intervene(self, ctx):
+        self.act(ctx, self.case["b"])
+
+    def finish(self, ctx):
+        for _ in range(8):
+            instr.advance(2.5)
+            p = ctx.me.pending()
+            if not p:
+                break
+            for k in p:
+                ctx.me.run(k)
+        instr.advance(2.5)
+
+    def oracle(self, ctx, res, info):
+        label = "%s placement=%s" % (self.case["name"], info.get("site"))
+        for what, e in ctx.errors:
+            res.violation("exception-escaped/%s/%s" % ("cancel" if "cancel" in what else what, type(e).__name__),
+                          "%s: %s raised %r" % (label, what, e))
+        for f in ctx.futs:
+            if not f.done():
+                res.violation("queued-future-stuck", "%s: a queued future never completed after the queue operations" % label)
+                break
+        if info.get("hit"):
+            res.key("iqueue", self.case["a"], self.case["b"], info.get("site"))
+        res.count("queue_races_judged")
+
+
 def run_case(case, res):
+    harness.JUDGE_CALLBACK_ESCAPES[0] = True
+    if case["kind"] == "irace":
+        return run_irace(case, res)
+    if case["kind"] == "iqueue":
+        rng = random.Random("c18q/%s/%s" % (case["seed"], case["name"]))
+        Sweep(QScenario(case), res, "vt", case["name"]).run(case["cap"], rng, per_site=2)
+        return
     k = case["kind"]
     rng = random.Random("c18/%s/%s" % (case["seed"], case["name"]))
     if k == "plan":
